@@ -46,3 +46,13 @@ pub fn precheck(text: &str) -> Result<PrecheckInfo, String> {
         }
     }
 }
+
+/// Debugging aid: the partitioned graph of a program as mermaid text.
+pub fn mermaid(text: &str) -> Result<String, String> {
+    let code: DfirCode = syn::parse_str(text).map_err(|e| format!("parse error: {e}"))?;
+    let root = quote::quote! { ::dfir_rs };
+    match build_dfir_code(code, &root) {
+        Ok(BuildDfirCodeOutput { partitioned_graph, .. }) => Ok(partitioned_graph.to_mermaid(&Default::default())),
+        Err(diags) => Err(diags.iter().map(|d| format!("{d}")).collect::<Vec<_>>().join(" | ")),
+    }
+}
